@@ -190,7 +190,7 @@ func ruleColumnExtraction(c *Ctx) {
 			if !ok || se.Low == nil || se.High == nil {
 				return true
 			}
-			// data[cursor : cursor+N]
+
 			if b, ok := unparen(se.High).(*ast.BinaryExpr); ok && b.Op == token.ADD {
 				if v, isC := constInt(info, b.Y); isC && canonExpr(info, b.X) == canonExpr(info, se.Low) {
 					per := want
@@ -202,10 +202,11 @@ func ruleColumnExtraction(c *Ctx) {
 			}
 			return true
 		})
+
 	}
 	// offsets advance by the element type's size
 	adv := false
-	walkAll(s.Body, func(n ast.Node) bool {
+	s.walk(func(n ast.Node) bool {
 		if as, ok := n.(*ast.AssignStmt); ok && as.Tok == token.ADD_ASSIGN && len(as.Rhs) == 1 {
 			if call, ok := unparen(as.Rhs[0]).(*ast.CallExpr); ok && CalleeName(s.Info, call) == "(utils/io.EnumElementType).Size" {
 				adv = true
@@ -213,6 +214,7 @@ func ruleColumnExtraction(c *Ctx) {
 		}
 		return true
 	})
+
 	c.Check(adv, rule, s.Name, "offset-advances-by-type-size", c.P.Pos(s.Body.Pos()), "the column offset advances by ds.Type.Size() for every preceding column")
 }
 
@@ -257,6 +259,7 @@ func ruleRowLayoutAgreement(c *Ctx) {
 					}
 					return true
 				})
+
 			}
 		}
 	}
@@ -266,7 +269,7 @@ func ruleRowLayoutAgreement(c *Ctx) {
 	c.Check(len(al) >= 1, rule, s.Name, "record-length-aligned", c.P.Pos(s.Body.Pos()), "the returned record length is AlignedSize(Σ sizes) when aligning")
 	if nt := c.S(rule, "utils/io.NewTimeBucketInfo"); nt != nil {
 		ok := false
-		walkAll(nt.Body, func(n ast.Node) bool {
+		nt.walk(func(n ast.Node) bool {
 			if b, isB := n.(*ast.BinaryExpr); isB && b.Op == token.ADD {
 				if mentionsCall(nt.Info, b.X, "utils/io.AlignedSize") && objKey(nt.Info, b.Y) == "utils/io.epochLenBytes" {
 					ok = true
@@ -274,6 +277,7 @@ func ruleRowLayoutAgreement(c *Ctx) {
 			}
 			return true
 		})
+
 		c.Check(ok, rule, nt.Name, "fixed-record-length-aligned-plus-epoch", c.P.Pos(nt.Body.Pos()), "fixed record length = AlignedSize(field bytes) + 8-byte epoch, the same alignment function the serializer uses")
 	}
 	// R29.3 (coercion error only logged in SerializeColumnsToRows) is not claimed: its only caller
@@ -357,7 +361,7 @@ func ruleHeaderLayout(c *Ctx) {
 	dec := c.S(r2, "(*utils/io.TimeBucketInfo).load")
 	if enc != nil && dec != nil {
 		written, read := map[string]bool{}, map[string]bool{}
-		walkAll(enc.Body, func(n ast.Node) bool {
+		enc.walk(func(n ast.Node) bool {
 			switch x := n.(type) {
 			case *ast.AssignStmt:
 				for _, l := range x.Lhs {
@@ -369,7 +373,7 @@ func ruleHeaderLayout(c *Ctx) {
 					})
 				}
 			case *ast.CallExpr:
-				// copy(hp.Field[:], …) or a helper that is handed the field's slice to fill
+
 				nm := CalleeName(enc.Info, x)
 				isHelper := c.P.Funcs[nm] != nil
 				if (nm == "builtin.copy" && len(x.Args) == 2) || isHelper {
@@ -392,12 +396,14 @@ func ruleHeaderLayout(c *Ctx) {
 			}
 			return true
 		})
-		walkAll(dec.Body, func(n ast.Node) bool {
+
+		dec.walk(func(n ast.Node) bool {
 			if k := fieldKeyNode(dec.Info, n); strings.HasPrefix(k, "utils/io.Header.") {
 				read[strings.TrimPrefix(k, "utils/io.Header.")] = true
 			}
 			return true
 		})
+
 		// NElements is written and also read back inside Load (loop bound): exclude pure self-reads
 		c.Floor(r2, enc.Name, "header fields written", len(written), 8)
 		all := map[string]bool{}
@@ -596,7 +602,7 @@ func ruleAppendComparesTypes(c *Ctx) {
 		return mentionsField(s.Info, as.Lhs[0], "utils/io.NumpyDataset.ColumnData")
 	}
 	typeCmp := 0
-	walkAll(s.Body, func(n ast.Node) bool {
+	s.walk(func(n ast.Node) bool {
 		b, ok := isCompareNode(n, token.NEQ, token.EQL)
 		if !ok {
 			return true
@@ -611,8 +617,9 @@ func ruleAppendComparesTypes(c *Ctx) {
 		}
 		return true
 	})
+
 	// or a helper call comparing shapes
-	walkAll(s.Body, func(n ast.Node) bool {
+	s.walk(func(n ast.Node) bool {
 		if call, ok := n.(*ast.CallExpr); ok {
 			nm := CalleeName(s.Info, call)
 			if strings.Contains(nm, "DataShape") && (strings.Contains(nm, "Equal") || strings.Contains(nm, "Match")) {
@@ -621,6 +628,7 @@ func ruleAppendComparesTypes(c *Ctx) {
 		}
 		return true
 	})
+
 	sites := s.sites(grow)
 	c.Floor(rule, s.Name, "column-data append sites", len(sites), 1)
 	c.Check(typeCmp > 0, rule, s.Name, "merge-guard-compares-types", c.P.Pos(s.Body.Pos()),
@@ -630,7 +638,7 @@ func ruleAppendComparesTypes(c *Ctx) {
 	// same index variable — not by set/map membership (a same-names-other-order series would swap
 	// the values of its columns).
 	positional := false
-	walkAll(s.Body, func(n ast.Node) bool {
+	s.walk(func(n ast.Node) bool {
 		b, ok := isCompareNode(n, token.NEQ, token.EQL)
 		if !ok {
 			return true
@@ -650,8 +658,9 @@ func ruleAppendComparesTypes(c *Ctx) {
 		}
 		return true
 	})
+
 	// also accept `for idx, name := range nmds.ColumnNames { if name != other[idx]`
-	walkAll(s.Body, func(n ast.Node) bool {
+	s.walk(func(n ast.Node) bool {
 		rs, ok := n.(*ast.RangeStmt)
 		if !ok || rs.Key == nil || rs.Value == nil || !mentionsField(s.Info, rs.X, "utils/io.NumpyDataset.ColumnNames") {
 			return true
@@ -671,8 +680,10 @@ func ruleAppendComparesTypes(c *Ctx) {
 			}
 			return true
 		})
+
 		return true
 	})
+
 	c.Check(positional, "R13.4", s.Name, "names-compared-position-by-position", c.P.Pos(s.Body.Pos()),
 		"the merge guard compares the dataset's i-th column name with the series' i-th column name (the bytes are appended by position)")
 	// and a mismatch leaves through an error before any append
